@@ -45,6 +45,10 @@ pub struct Doc {
     pub prolog: Vec<Misc>,
     pub root: Elem,
     pub epilog: Vec<Misc>,
+    /// the stream ends early, at a token boundary: the end tags that would close the last branch (and the
+    /// epilog) never arrive. The reader reports a plain end of input then, and the library takes the elements
+    /// as they stand - so the document counts exactly like its complete form
+    pub unclosed: bool,
 }
 
 pub fn local(name: &str) -> &str {
@@ -71,6 +75,10 @@ impl Elem {
         1 + self.elems().map(|e| e.depth()).max().unwrap_or(0)
     }
     pub fn ser(&self, out: &mut Vec<u8>) {
+        self.ser_inner(out, false)
+    }
+    /// `open`: leave out this element's end tag and those of the last branch below it
+    pub fn ser_inner(&self, out: &mut Vec<u8>, open: bool) {
         out.push(b'<');
         out.extend_from_slice(self.name.as_bytes());
         for a in &self.attrs {
@@ -99,9 +107,10 @@ impl Elem {
             return;
         }
         out.push(b'>');
-        for k in &self.kids {
+        let last = self.kids.len().wrapping_sub(1);
+        for (ki, k) in self.kids.iter().enumerate() {
             match k {
-                Node::Elem(e) => e.ser(out),
+                Node::Elem(e) => e.ser_inner(out, open && ki == last),
                 Node::Text(t) => out.extend_from_slice(t.as_bytes()),
                 Node::CData(t) => {
                     out.extend_from_slice(b"<![CDATA[");
@@ -119,6 +128,9 @@ impl Elem {
                     out.extend_from_slice(b"?>");
                 }
             }
+        }
+        if open {
+            return;
         }
         out.extend_from_slice(b"</");
         out.extend_from_slice(self.name.as_bytes());
@@ -210,12 +222,22 @@ impl Elem {
 
 impl Doc {
     pub fn plain(root: Elem) -> Doc {
-        Doc { prolog: vec![], root, epilog: vec![] }
+        Doc { prolog: vec![], root, epilog: vec![], unclosed: false }
+    }
+    /// the complete form, whatever `unclosed` says
+    pub fn ser_closed(&self) -> Vec<u8> {
+        let mut d = self.clone();
+        d.unclosed = false;
+        d.ser()
     }
     pub fn ser(&self) -> Vec<u8> {
         let mut out = Vec::new();
         for m in &self.prolog {
             ser_misc(m, &mut out);
+        }
+        if self.unclosed {
+            self.root.ser_inner(&mut out, true);
+            return out;
         }
         self.root.ser(&mut out);
         for m in &self.epilog {
@@ -230,6 +252,9 @@ impl Doc {
             o.put("prolog", J::Arr(self.prolog.iter().map(misc_j).collect()));
         }
         o.put("root", self.root.to_j());
+        if self.unclosed {
+            o.put("unclosed", J::Bool(true));
+        }
         if !self.epilog.is_empty() {
             o.put("epilog", J::Arr(self.epilog.iter().map(misc_j).collect()));
         }
@@ -237,6 +262,7 @@ impl Doc {
     }
     pub fn from_j(j: &J) -> Result<Doc, String> {
         let mut d = Doc::plain(Elem::from_j(j.get("root").ok_or("doc without root")?)?);
+        d.unclosed = matches!(j.get("unclosed"), Some(J::Bool(true)));
         if let Some(J::Arr(a)) = j.get("prolog") {
             for m in a {
                 d.prolog.push(j_misc(m)?);
@@ -702,7 +728,7 @@ pub fn gen_doc(rng: &mut Rng, cfg: &GenCfg, sk: &Skel) -> Doc {
     let mut budget = cfg.max_elems;
     let root = inst(rng, cfg, sk, &mut budget);
     let (prolog, epilog) = gen_prolog(rng, cfg, &sk.name);
-    Doc { prolog, root, epilog }
+    Doc { prolog, root, epilog, unclosed: false }
 }
 
 /// Rewrite a document's incidental detail without touching its structure (C11): attribute values,
@@ -815,7 +841,7 @@ pub fn rewrite(rng: &mut Rng, d: &Doc, fired: &mut Vec<&'static str>) -> Doc {
     } else {
         (d.prolog.clone(), d.epilog.clone())
     };
-    Doc { prolog, root, epilog }
+    Doc { prolog, root, epilog, unclosed: d.unclosed }
 }
 
 /// Near-miss renaming used for warm-up documents: for some parent/child pairs move the first character of the
